@@ -21,15 +21,50 @@ def jFit (f : Fit) : Json :=
   jObj [("gradient", jRat f.gradient), ("intercept", jRat f.intercept), ("rsq", jRsq f.rsq),
         ("err2", jOpt jRat f.err2)]
 
+def parseWeighting (j : Json) : R Weighting := do
+  let name ← getStr j "weighting"
+  let hasCustom ← getBool j "custom"
+  match parseBuiltin name with
+  | some b => pure (Weighting.builtin b)
+  | none => if hasCustom then pure Weighting.custom else throw s!"unsupported weighting {name}"
+
+/-- one operation of a session.  A refit whose points allow a fit (two usable rows) stores a line computed in
+floating point by polyfit: the line observed on the object is adopted (`observed`; the fit itself is judged by
+"c06.fit"), in the model's terms an `assign` right after the `refit`.  With fewer than two usable rows the
+model's own state - the identity - stands. -/
+def sessionStep (st : Fit) (j : Json) : R (List Step × Json) := do
+  match ← getStr j "op" with
+  | "assign" =>
+    let g ← getRat j "g"
+    let c ← getRat j "c"
+    pure ([.assign g c], jObj [("op", jStr "assign")])
+  | "refit" =>
+    let wt ← parseWeighting j
+    let rows ← getList parseRow j "rows"
+    if wt == .custom && (usableRows rows).any (fun r => r.cw.isNone) then
+      throw "NaN custom weight on a usable row (outside the property)"
+    let fitted := !rows.isEmpty && (usableRows rows).length ≥ 2
+    let obs ← (fld j "observed") >>= asOpt (asList asRat)
+    let extra : List Step ← match fitted, obs with
+      | true, some [g, c] => pure [Step.assign g c]
+      | true, some _ => throw "observed must be [g, c]"
+      | _, _ => pure []     -- no usable observed line: the exact fit stands and `adopted` is false
+    pure (.refit wt rows :: extra,
+      jObj [("op", jStr "refit"), ("fitted", jBool fitted), ("adopted", jBool !extra.isEmpty)])
+  | "calibrate" =>
+    let resp ← getList (asOpt asRat) j "responses"
+    let conc ← getList (asOpt asRat) j "concentrations"
+    let g := st.gradient
+    let c := st.intercept
+    pure ([.calibrate resp], jObj [("op", jStr "calibrate"), ("spec", jList jV conc),
+      ("on_line", jBool (decide (conc.map (fun x => calibrate g c (x.map (fun q => g * q + c))) = conc)))])
+  | o => throw s!"unknown session step {o}"
+
 def handle (op : String) (req : Json) : R Json := do
   match op with
   | "c06.fit" =>
-    let name ← getStr req "weighting"
-    let hasCustom ← getBool req "custom"
     let rows ← getList parseRow req "rows"
-    let wt ← match parseBuiltin name with
-      | some b => pure (Weighting.builtin b)
-      | none => if hasCustom then pure Weighting.custom else throw s!"unsupported weighting {name}"
+    let wt ← parseWeighting req
     if wt == .custom && (usableRows rows).any (fun r => r.cw.isNone) then
       throw "NaN custom weight on a usable row (outside the property)"
     let fit := updateLinreg wt rows
@@ -86,6 +121,33 @@ def handle (op : String) (req : Json) : R Json := do
       ("model", jList jV (resp.map (calibrate g c))),
       ("spec", jList jV conc),
       ("on_line", jBool (decide (conc.map (fun x => calibrate g c (x.map (fun q => g * q + c))) = conc)))])
+  | "c06.session" =>
+    -- several operations on one object (`Pew.Calib.Step`, `run`, `finalState`): the object starts with the line
+    -- given to the constructor; reported per step: the line the object holds after it, and for a calibrate step
+    -- the array `run` returns for it
+    let g0 ← getRat req "gradient"
+    let c0 ← getRat req "intercept"
+    let init : Fit := { identityFit with gradient := g0, intercept := c0 }
+    let mut steps : List Step := []
+    let mut infos : List (Json × Fit × Bool) := []
+    for j in ← getList pure req "steps" do
+      let st := finalState init steps
+      let (ss, info) ← sessionStep st j
+      steps := steps ++ ss
+      infos := infos ++ [(info, finalState init steps, ss matches [.calibrate _])]
+    let outs := run init steps
+    if outs.length ≠ (infos.filter (·.2.2)).length then throw "session: outputs and calibrate steps differ in number"
+    let mut k := 0
+    let mut res : List Json := []
+    for (info, st, isCal) in infos do
+      let line := [("gradient", jRat st.gradient), ("intercept", jRat st.intercept),
+                   ("identity", jBool (decide (st.gradient = 1 ∧ st.intercept = 0)))]
+      if isCal then
+        res := res ++ [info.mergeObj (jObj (("model", jList jV (outs.getD k [])) :: line))]
+        k := k + 1
+      else
+        res := res ++ [info.mergeObj (jObj line)]
+    pure (jObj [("steps", Json.arr res.toArray)])
   | _ => throw s!"unknown op {op}"
 
 end PewDriver.C06
